@@ -122,6 +122,19 @@ CHECKS["C02"] = (
     "dynamic amplification for physical forms); undamped resonances kept 1e-3 away; exactly critical damping "
     "excluded where the complex-eigen path is used; known finding F3 (damping of rb-classified modes "
     "ignored) excluded by signature.", "3/C02")
+CHECKS["C14"] = (
+    "Hypothesis-generated chains of CORD2R/C/S systems, grids, reference points, RBE3 definitions; oracle = "
+    "independent coordinate-system / rigid-body / weighted-least-squares RBE3 model (refs/coordsys.py); "
+    "round-trip and rigid-motion metamorphics",
+    "Generated-input search: systems of depth 1..5 with any type mix are resolved by an independent "
+    "implementation written from the CORD2x definition; addgrid locations and stored frames, "
+    "mkusetcoordinfo/build_coords, getcoordinates (point identity across systems), rbgeom_uset row blocks "
+    "in each grid's own displacement system, rbgeom/rbmove/rbcoords consistency, formrbe3 reproduction of "
+    "the six rigid motions (with and without UM lists) and replace_basic_cs (distances and relative frame "
+    "orientations preserved) are compared with it.",
+    "Grids are kept away from the polar singularities of their input and output systems (as the property "
+    "quantifies); rbe3 cases whose m-set choice is numerically singular (cond > 1e7) are skipped and counted.",
+    "3/C14")
 
 NOT_APPLICABLE = {
 }
